@@ -80,6 +80,9 @@ func (g *genCtx) fileName(dialect int, used map[string]bool, o attOpts) string {
 				}
 				name[i] = c
 			}
+			if n >= 3 && g.r.chance(12) {
+				name[1+g.r.intn(n-2)] = 0 // a zero byte inside the name (never first or last: the packet field is zero padded)
+			}
 		}
 		if len(name) > max {
 			name = name[:max]
